@@ -577,7 +577,10 @@ impl Woz2 {
     }
     /// Find track and get a reference
     fn get_trk_ref(&self,track: u8) -> Result<&Trk,img::NibbleError> {
-        return Ok(&self.trks.tracks[self.get_trk_idx(track)?]);
+        match self.trks.tracks.get(self.get_trk_idx(track)?) {
+            Some(trk) => Ok(trk),
+            None => Err(img::NibbleError::BadTrack)
+        }
     }
     /// Get a reference to the track bits
     fn get_trk_bits_ref(&self,track: u8) -> Result<&[u8],img::NibbleError> {
@@ -753,6 +756,10 @@ impl img::DiskImage for Woz2 {
             return Err(DiskStructError::IllegalValue);
         }
         if u32::from_le_bytes(ans.info.id)>0 && u32::from_le_bytes(ans.tmap.id)>0 && u32::from_le_bytes(ans.trks.id)>0 {
+            if ![1,2].contains(&ans.info.disk_type) || ![1,2].contains(&ans.info.disk_sides) {
+                debug!("WOZ v2 disk type {} with {} sides, refusing",ans.info.disk_type,ans.info.disk_sides);
+                return Err(DiskStructError::IllegalValue);
+            }
             ans.kind = match (ans.info.disk_type,ans.info.boot_sector_format,ans.info.disk_sides) {
                 (1,0,1) => img::names::A2_DOS33_KIND,
                 (1,1,1) => img::names::A2_DOS33_KIND,
